@@ -542,7 +542,9 @@ class Run:
                 if case['src'] is None:
                     G = to_nx(case['raw'])
                     if case['fmt'] == 0:
-                        text = GraphML.networkx_to_neo4j('\n'.join(nx.generate_graphml(G)))
+                        # the calls serialize_graph makes on an extracted graph (writer helper of fix 10c1448 if present)
+                        gen = getattr(GraphML, 'nx_generate_graphml', None)
+                        text = GraphML.networkx_to_neo4j(gen(G) if gen else '\n'.join(nx.generate_graphml(G)))
                     else:
                         text = json.dumps(nx.readwrite.node_link_data(G))
                 elif case.get('topo'):
@@ -740,8 +742,7 @@ def oracle(case, obs, flavour='shared'):
                 return 'disjoint store, entry point %s: import onto a graph id in use changed that graph' % EPS[ep]
         return None
     tag = 'GraphML' if fmt == 0 else 'JSON'
-    cr = fmt == 0 and has_cr(g)
-    crs = ''
+    crs = ' [string value containing U+000D]' if has_cr(g) else ''
     if obs['ser']['kind'] in ('err', 'absent', 'unparsable'):
         return '%s: serializing a well-formed graph failed (%s)%s' % (tag, obs['ser'].get('exc') or obs['ser'].get('why') or 'returned None', crs)
     if obs['res'] is None or obs['res'][0] != 'ok':
@@ -763,13 +764,7 @@ def oracle(case, obs, flavour='shared'):
     have = canon_content(got, drop=() if direct else ('GraphID',))
     known = None
     if have != exp:
-        # the one recorded defect: through GraphML a CR (CR LF) in a string value comes back as LF and nothing else changes
-        if cr and have == canon_content(case_content(eol_normalised(g)), drop=() if direct else ('GraphID',)):
-            known = ('GraphML, string value containing U+000D: entry point %s returns it with every CR / CR LF replaced by '
-                     'LF (%s)' % (EPS[ep], first_diff(exp, have)))
-            g = eol_normalised(g)
-        else:
-            return '%s entry point %s: imported copy differs from the original (%s)' % (tag, EPS[ep], first_diff(exp, have))
+        return '%s entry point %s: imported copy differs from the original (%s)%s' % (tag, EPS[ep], first_diff(exp, have), crs)
     # label markup in the real text
     if fmt == 0:
         d = obs['ser']['doc']
@@ -805,12 +800,6 @@ def oracle(case, obs, flavour='shared'):
     if obs.get('topo') and obs['topo'].get('orig_nodes') is not None and obs['topo']['nodes'] != obs['topo']['orig_nodes']:
         return '%s: topology node names differ after load' % tag
     return known
-
-
-def eol_normalised(g):
-    n = lambda v: v.replace('\r\n', '\n').replace('\r', '\n') if isinstance(v, str) else v
-    return {'nodes': [[k, {p: n(v) for p, v in d.items()}] for k, d in g['nodes']],
-            'edges': [[u, v, {p: n(x) for p, x in d.items()}] for u, v, d in g['edges']]}
 
 
 JSON_PROPS = None
@@ -1097,7 +1086,7 @@ class C01(Check):
         'GraphML text with xml.etree and of the JSON text with json, cases.v writer, interning of property names)',
         'modelled not verified: networkx 3.6.1 generate_graphml / read_graphml / node_link_data / node_link_graph / '
         'convert_node_labels_to_integers / to_dict_of_dicts / networkx_query eq-search; xml.etree and lxml serialisation and '
-        'parsing of text items (escaping, character references, end-of-line handling), str.splitlines; json.dumps/loads '
+        'parsing of text items (escaping, character references, end-of-line handling), str.replace; json.dumps/loads '
         '(identity on values); tempfile / open() text files; Python str(int), str(bool)',
     ]
     assumptions = [
@@ -1105,24 +1094,7 @@ class C01(Check):
         'strings are XML-legal text; every node and edge carries a non-empty string Class; nodes carry a non-empty NodeID '
         '(without these the library itself refuses to serialize or import)',
         'property names are identifiers (interned); for node-link JSON they are not the structural names id/source/target',
-        'KNOWN FINDING: a carriage return in a string value is turned into a line feed by the GraphML path; the round-trip '
-        'theorem for GraphML is proved for CR-free strings and the exact effect (end-of-line normalisation) for all legal strings',
     ]
-
-    def refuted_witnesses(self):
-        def cr_witness():
-            case = {'kind': 'raw', 'profile': 'witness', 'pre': [[True, 'g', {'nodes': [[1, {'GraphID': 'g', 'NodeID': 'n', 'Class': 'NetworkNode', 'p': 'a\rb'}]], 'edges': []}]],
-                    'src': 'g', 'raw': {'nodes': [], 'edges': []}, 'fmt': 0, 'ep': 0, 'gid': 'h', 'watch': ['g', 'h'], 'topo': None}
-            st = self.streams[0]
-            o = st.observe(case)
-            why = st.oracle(case, o)
-            got = None
-            try:
-                got = o['graphs'][1]['nodes'][0].get('p')
-            except Exception:
-                pass
-            return (why is not None and got == 'a\nb', {'case': case, 'imported_value': got, 'oracle': why})
-        return [('C01_roundtrip_graphml_cr_refuted', cr_witness)]
 
 
 if __name__ == '__main__':
